@@ -149,14 +149,13 @@ def call_novel_orf(d:Path, opts:dict, index_dir=None):
     peps, dups = read_fasta(d/'novel.fasta')
     orfs = []
     if (d/'orf.fasta').exists():
-        hdr = None
         for line in open(d/'orf.fasta'):
             line = line.rstrip('\n')
             if line.startswith('>'):
-                hdr = line[1:]
+                orfs.append([line[1:], ''])
             elif line:
-                orfs.append((hdr, line))
-    return peps, dups, orfs
+                orfs[-1][1] += line      # sequences are wrapped at 60 residues
+    return peps, dups, [tuple(x) for x in orfs]
 
 
 def call_alt_translation(d:Path, opts:dict, index_dir=None):
